@@ -66,6 +66,15 @@ theorem any_chunking (chunks : List Bytes) :
   simp only [List.nil_append] at this
   exact ⟨this.1, this.2.1⟩
 
+/-- **A rejection is final.**  Once draining has raised for a header, draining again — at once, or after ANY further
+    bytes have been fed — yields no frame and raises the same exception again: the rejected header is never
+    accepted later and nothing behind it is ever decoded (so nothing is buffered towards its announced length). -/
+theorem rejection_is_final (buf more : Bytes) (e : Err) (h : (drain buf).2.2 = some e) :
+    drain ((drain buf).2.1 ++ more) = ([], (drain buf).2.1 ++ more, some e) := by
+  have hs := (drain_spec buf).2.2
+  rw [h] at hs
+  exact drain_bad (header_append_bad hs)
+
 /-! The pinned decoder (before fix D1) violated termination: kernel-checked witnesses. -/
 example (x : Bytes) := Legacy.d1_no_progress x
 example (x : Bytes) := Legacy.d1_fixed x
@@ -76,5 +85,7 @@ example : header [0, 0, 0, 5, 6] = .bad .unknownOp := by decide +kernel
 example : header [0, 16, 0, 6, 3, 9, 9] = .bad .tooBig := by decide +kernel
 example : header [0, 16, 0, 5, 3, 9, 9] = .wait := by decide +kernel
 example : header [0, 0, 0, 5, 3, 9, 9] = .ok 5 3 := by decide +kernel
+/-- a good frame, then an undefined opcode: rejected, and still rejected after the announced body has arrived -/
+example : drain ((drain [0,0,0,5,3, 0,0,0,7,6]).2.1 ++ [1, 2]) = ([], [0,0,0,7,6,1,2], some .unknownOp) := by decide +kernel
 
 end Hpfeeds.C07
